@@ -225,7 +225,7 @@ class ADWINSpec(Spec):
     def make(self, p): return ADWIN(**{k: p[k] for k in self.KEYS})
     def gen(self, ctx):
         return {"params": {"delta": ctx.rng.choice([1.0, 0.1, 0.002]), "max_buckets": ctx.rng.choice([1, 2, 5]),
-                           "new_sample_thresh": ctx.rng.choice([1, 2, 4, 32]), "window_size_thresh": ctx.rng.choice([0, 5, 10]),
+                           "new_sample_thresh": ctx.rng.choice([1, 2, 4, 32]), "window_size_thresh": ctx.rng.choice([0, 5, 10, 25, 60]),
                            "subwindow_size_thresh": ctx.rng.choice([1, 3, 5]), "conservative_bound": ctx.rng.random() < 0.3},
                 "data": level_stream(ctx.rng, ctx.rng.randint(60, 300), ctx.rng.choice([1.0, 0.1]))}
     def extra_obs(self, det): return {"W": priv(det, "_window_size")}
